@@ -91,6 +91,8 @@ VARIANTS = [
     # ---- C13
     ("C13", "constant flag", S, r'"converged": residual_norms\[-1\] <= self\.tol if residual_norms else False', '"converged": True', "F"),
     ("C13", "CGNE residual recurrence", S, r"R = R - alpha_k \* W", "R = R + alpha_k * W", "F"),
+    ("C13", "CGNE breakdown test on the squared norm, same constant", S, r"if Wn <= 1e-20:", "if Wn * Wn <= 1e-20:", "F"),
+    ("C13", "CGNE breakdown test on the squared norm, squared constant (equivalent)", S, r"if Wn <= 1e-20:", "if Wn * Wn <= 1e-40:", "S"),
     ("C13", "hyperpower start", S, r"S = I\.copy\(\)\n        F_power = F\.copy\(\)", "S = 0 * I\n        F_power = F.copy()", "F"),
     # ---- C15 / C16 / C18 / C19
     ("C15", "dropped plane", U, r"return np\.sqrt\(real_norm \+ i_norm \+ j_norm \+ k_norm\)", "return np.sqrt(real_norm + i_norm + j_norm)", "F"),
